@@ -84,6 +84,10 @@ class Hist:
                 tags.append(["d", dv])
             if r.random() < 0.3:
                 tags.append(["t", r.choice(TAG_VALS[:3])])
+        elif r.random() < 0.4:
+            # a d tag on a kind that is addressed by author and kind alone: it must not split the address
+            dv = r.choice(D_VALUES[1:])
+            tags.append(["d"] if dv == "BARE" else ["d", dv])
         ev = evgen.make(a, kind=kind, created_at=ts(r, "tight") if created_at is None else created_at,
                         tags=tags, content="v%d" % len(self.events))
         self.events.append(ev)
